@@ -15,7 +15,7 @@ COQ = dict(imports=["Model.AlterCol", "Spec.C13"], in_ty="c13_in", out_ty="iout"
            corr="corr_C13", decide="check_C13", model="tagged_C13")
 THEOREMS = ["C13_sem_is_assign", "C13_run_addressing", "C13_decider_sound", "C13_model_holds_partial", "C13_effect",
             "C13_restated", "C13_raises_instead", "C13_raises_iff_unsupported", "C13_toimpl_frame", "C13_autoinc_ignored",
-            "C13_autoinc_ignored_refuted", "C13_check_after_rename_refuted", "C13_stated_enough_exact",
+            "C13_autoinc_ignored_refuted", "C13_stated_enough_exact",
             "C13_stated_enough_minimal"]
 TRUSTED = [
     "C13 statement tokenizer in harness/props/c13.py (SQL text -> abstract statements; strict per dialect, fails loudly)",
@@ -477,8 +477,7 @@ _NOTHING = object()
 
 
 def _deviations(h, stmts):
-    """set of deviation kinds of a completed call: 'autoinc' (requested autoincrement left alone), 'check-after-rename'
-    (only ADD CONSTRAINT statements name a stale column name), 'other'"""
+    """set of deviation kinds of a completed call: 'autoinc' (requested autoincrement left alone), 'other'"""
     r, e = h["req"], h["ex"]
     dev = set()
     tri = lambda code, v: _NOTHING if code == "F" else (None if code == "N" else v)
@@ -495,7 +494,7 @@ def _deviations(h, stmts):
         if t != want_t:
             dev.add("other")
         if c is not None and c != cur:
-            dev.add("check-after-rename" if kind == "AddConstraint" else "other")
+            dev.add("other")
         a = _ASSIGN[kind](args)
         cur = a.get("name", cur)
         last.update(a)
@@ -517,18 +516,12 @@ def _deviations(h, stmts):
 
 
 def classify(h, out):
-    """known findings, attributed only when they are the ONLY things wrong with the output of a completed call:
-    C13-autoincrement-ignored: a requested autoincrement= is silently ignored outside MySQL/MariaDB;
-    C13-type-check-added-after-rename: with new_column_name and a type_ carrying a type-bound CHECK, toimpl.alter_column
-    emits ADD CONSTRAINT ... CHECK (<old name> IN ...) after the rename"""
+    """known finding, attributed only when it is the ONLY thing wrong with the output of a completed call:
+    C13-autoincrement-ignored: a requested autoincrement= is silently ignored outside MySQL/MariaDB.
+    (the former C13-type-check-added-after-rename is repaired in /repo (0b330f6); its witness is corpus/C13/ and a
+    regression is an ordinary VIOLATION)"""
     if out is None or out.get("err") is not None:
         return None
-    dev = _deviations(h, out["stmts"])
-    r = h["req"]
-    if not dev or "other" in dev:
-        return None
-    if "check-after-rename" in dev:
-        return "C13-type-check-added-after-rename" if r["name"] is not None and r["type"] is not None else None
-    if dev == {"autoinc"} and h["d"] not in ("mysql", "mariadb"):
+    if _deviations(h, out["stmts"]) == {"autoinc"} and h["d"] not in ("mysql", "mariadb"):
         return "C13-autoincrement-ignored"
     return None
